@@ -609,7 +609,7 @@ pub fn main(tier: Tier) -> i32 {
         }
     }
     if base_acc == 0 {
-        machinery_failure("no base close was accepted: the grid would be vacuous");
+        run.vacuous("no base close was accepted");
     }
     if samples.is_empty() {
         samples.push(json!({"base": bases.first()}));
